@@ -115,11 +115,16 @@ def malformed_case(case):
 
 
 TRAIN_MODELS = ["LinearModel", "MLPModel", "SparseLinearModel", "CategoricalModel", "Douglas"]
-ML5, CL5 = [(0, 3), (4, 3)], [(1, 2), (2, 0)]
+CONSTRAINT_SETS = {
+    "A": ([(0, 3), (4, 3)], [(1, 2), (2, 0)]),               # must-link hub on the same side, cannot-link hub on both sides
+    "B": ([(0, 1)], [(2, 3), (2, 4), (0, 2)]),               # cannot-link hub on the same side, a sample in both lists
+    "C": ([(1, 0), (2, 1), (2, 0)], [(4, 3)]),               # a must-link triangle (every sample twice)
+}
 
 
 def training_case(case):
-    family, factor, bs, perm, gemini, seed = case
+    family, factor, bs, perm, gemini, seed = case[:6]
+    ML5, CL5 = CONSTRAINT_SETS[case[6] if len(case) > 6 else "A"]
     from gemclus import add_mlcl_constraint
     n = 5
     X = seams.tiny_data(n, 2, seed + 5)
@@ -184,6 +189,10 @@ def explorers(tier, seed):
                     c3.append((family, factor, bs, None, gemini, seed))
                     for p in (perms if (thorough or family in ("LinearModel", "MLPModel")) else perms[::4]):
                         c3.append((family, factor, bs, p, gemini, seed))
+                    for cs in ("B", "C"):
+                        c3.append((family, factor, bs, None, gemini, seed, cs))
+                        for p in (perms if thorough else perms[::6]):
+                            c3.append((family, factor, bs, p, gemini, seed, cs))
     return [
         Explorer("validation_all_pair_sets", "props.c14", "validation_block", c1, chunk=8, floor=1000,
                  rule="ALL subsets of the 6 pairs over 4 indices as must-link x ALL subsets as cannot-link, index sets "
